@@ -420,6 +420,80 @@ let c17 (rest : string) : string =
       Buffer.add_string buf ("# " ^ fin); Buffer.contents buf
   | _ -> failwith "c17: expected `L v | script`"
 
+(* ---------- rx: receiving link (C09, C10, C02 receiver side) ---------- *)
+let kv (ws : string list) (k : string) : string =
+  let pre = k ^ "=" in
+  let n = Stdlib.String.length pre in
+  match Stdlib.List.find_opt (fun w -> Stdlib.String.length w >= n && Stdlib.String.sub w 0 n = pre) ws with
+  | Some w -> Stdlib.String.sub w n (Stdlib.String.length w - n)
+  | None -> "-"
+let opt_bool s = if s = "-" then None else Some (s = "1")
+let bytes_of_hex (s : string) : coq_N list =
+  if s = "-" then [] else
+  Stdlib.List.init (Stdlib.String.length s / 2) (fun i -> n_of_int (int_of_string ("0x" ^ Stdlib.String.sub s (2 * i) 2)))
+let hex_of_bytes (b : coq_N list) : string =
+  if b = [] then "-" else Stdlib.String.concat "" (Stdlib.List.map (fun x -> Printf.sprintf "%02x" (int_of_n x)) b)
+
+let rx_obs (o : Receiver.obs list) : string =
+  let wire = Stdlib.List.filter_map (function
+    | Receiver.OFlow (dc, c, d, e) -> Some (Printf.sprintf "F(dc=%s,c=%s,d=%d,e=%d)" (str_n dc) (str_n c) (if d then 1 else 0) (if e then 1 else 0))
+    | Receiver.ODisp (f, l, s) -> Some (Printf.sprintf "P(%s,%s,%s)" (str_n f) (match l with None -> "-" | Some v -> str_n v) (if s then "s" else "u"))
+    | _ -> None) o in
+  let api = Stdlib.List.filter_map (function
+    | Receiver.ORecv (d, fmt, msg) -> Some (Printf.sprintf "recv=ok(d=%s,t=%s,fmt=%s,msg=%s)" (str_n d.Receiver.d_id) (str_n d.Receiver.d_tag)
+                                             (match fmt with None -> "-" | Some v -> str_n v) (hex_of_bytes msg))
+    | Receiver.ORecvErr e -> Some ("recv=err:" ^ (match e with
+        | Receiver.ETransferLimit -> "TransferLimitExceeded" | Receiver.EInconsistent -> "InconsistentFieldInMultiFrameDelivery"
+        | Receiver.ENoDeliveryId -> "DeliveryIdIsNone" | Receiver.ENoDeliveryTag -> "DeliveryTagIsNone"
+        | Receiver.EIllegalRsm -> "IllegalRcvSettleModeInTransfer"))
+    | _ -> None) o in
+  Stdlib.String.concat " " ([Stdlib.String.concat "," wire] @ api)
+
+let rx (rest : string) : string =
+  match split_on rest '|' with
+  | hd :: script ->
+      let hw = words hd in
+      let mode = kv hw "mode" in
+      let cm = if mode = "manual" then Receiver.Manual
+               else Receiver.Auto (n_of_string (Stdlib.String.sub mode 5 (Stdlib.String.length mode - 5))) in
+      let second = kv hw "second" = "1" in
+      let idc = n_of_string (kv hw "idc") in
+      let s0 = Receiver.rinit cm second idc in
+      let buf = Buffer.create 512 in
+      (match cm with
+       | Receiver.Auto n -> Buffer.add_string buf (Printf.sprintf "F(dc=%s,c=%s,d=0,e=0)" (str_n idc) (str_n n))
+       | Receiver.Manual -> ());
+      Buffer.add_string buf " ; ";
+      let evs = match script with [] -> [] | [x] -> split_on x ';' | _ -> failwith "rx: too many |" in
+      let s = Stdlib.List.fold_left (fun s e ->
+        let w = words e in
+        let busy = s.Receiver.r_waiting in
+        let ev = match w with
+          | "t" :: f -> Some (Receiver.EXfer { Receiver.x_did = opt_n (kv f "did"); x_tag = opt_n (kv f "tag"); x_fmt = opt_n (kv f "fmt");
+                                                x_settled = opt_bool (kv f "set"); x_more = (kv f "more" = "1"); x_rsm = opt_bool (kv f "rsm");
+                                                x_aborted = (kv f "ab" = "1"); x_pay = bytes_of_hex (kv f "pay") })
+          | ["recv"] -> Some Receiver.ERecv
+          | ["cred"; n] -> if busy then None else Some (Receiver.ECredit (n_of_string n))
+          | ["drain"] -> if busy then None else Some Receiver.EDrain
+          | "pflow" :: f -> Some (Receiver.EPFlow (opt_n (kv f "dc"), kv f "echo" = "1"))
+          | ["acc"] -> if busy then None else Some (Receiver.EAccept false)
+          | ["accn"] -> if busy then None else Some (Receiver.EAccept true)
+          | ["accall"] -> if busy then None else Some Receiver.EAcceptAll
+          | ["pset"; a; b] -> Some (Receiver.EPSettle (n_of_string a, n_of_string b))
+          | _ -> failwith ("rx: bad event " ^ e) in
+        match ev with
+        | None -> Buffer.add_string buf " ; "; s
+        | Some ev ->
+            let (s', o) = Receiver.rstep s ev in
+            Buffer.add_string buf (rx_obs o); Buffer.add_string buf " ; "; s') s0 evs in
+      let fin =
+        if s.Receiver.r_waiting then "recv=PENDING"
+        else Printf.sprintf "credit=%s dc=%s drain=%d unsettled=[%s]" (str_n s.Receiver.r_credit) (str_n s.Receiver.r_dc)
+               (if s.Receiver.r_drain then 1 else 0)
+               (Stdlib.String.concat "," (Stdlib.List.map string_of_int (Stdlib.List.sort compare (Stdlib.List.map int_of_n s.Receiver.r_unsettled)))) in
+      Buffer.add_string buf ("# " ^ fin); Buffer.contents buf
+  | [] -> failwith "rx: empty"
+
 let dispatch (line : string) : string =
   match Stdlib.String.index_opt line ' ' with
   | None -> failwith "no model tag"
@@ -432,6 +506,7 @@ let dispatch (line : string) : string =
        | "c02" -> c02 rest
        | "c12" -> c12 rest
        | "c17" -> c17 rest
+       | "rx" -> rx rest
        | "lnk" -> c11_lnk rest
        | "chn" -> c11_chn rest
        | "xfer" -> frame_xfer rest
